@@ -135,6 +135,109 @@ def gate_and_runner(chk, prop):
     return gate, runner
 
 
+# Known-finding classes of this family for which the extracted model CARRIES the defect (the theorem that refutes the
+# property is a statement about that model): F-13a GenKeep's `is_arg` clause (C13_is_arg_refuted), F-08a the union
+# template matches on the id only (C08_union_retyped_refuted), F-04a gen_size of a typedef'd bool under compact
+# (C04_gen_size_typedef_bool), F-12a GenKeep (sync) vs GenAsync (async: the plain template).  A failing case is attributed
+# to such a class only if, on that very input (and on the companion lines the oracle related it to), the code's
+# observable outcome -- value, bytes left, size(), bytes written; outcome kind for `mem` lines -- EQUALS the model's.  Any
+# other deviation from the property on a type of the class is a violation of its own, with that case as replay.
+# (F-19a list-decode-leak is decided per input by the ownership model inside pv/props/c19.py.)
+MODELLED_CLASSES = {'keep-is-arg-swallow': 'F-13a', 'union-variant-retyped': 'F-08a', 'typedef-bool-size-compact': 'F-04a',
+                    'keep-async-no-retention': 'F-12a'}
+
+
+def _model_line(line):
+    """the runner line that answers a driver line: `mem` (outcome + allocator figures) is answered by `dec`"""
+    return 'dec' + line[3:] if line.startswith('mem ') else line
+
+
+def _agrees(gb, case, impl_line, model_line):
+    """None if the code's outcome on this line is the model's, else the difference"""
+    import re
+    from . import gencorr
+    if case['line'].startswith('mem '):
+        m = re.match(r'^(ok|err|panic|hang) LIVE ', impl_line or '')
+        ik = m.group(1) if m else 'crash'
+        mk = gencorr._split_model(model_line or '')['kind']
+        if ik == mk or (case.get('proto') == 'unchecked' and ik == 'crash' and mk in ('err', 'panic')) or _async_prealloc(gb, case, ik, mk):
+            return None
+        return 'outcome: implementation %s, model %s' % ((impl_line or '')[:40], (model_line or '')[:40])
+    d = gencorr.compare(gb, case, impl_line, model_line)
+    if d and _async_prealloc(gb, case, genrun.Res(impl_line).kind, gencorr._split_model(model_line or '')['kind']):
+        return None
+    return d
+
+
+def _async_prealloc(gb, case, ik, mk):
+    """F-09e (property C09): the emitted ASYNC container decoders hand the wire count to with_capacity before reading an
+    element; where the model (which has no allocator) runs dry and reports an error, the code aborts / panics with capacity
+    overflow / is busy allocating.  An outcome of the known defect's model `err` with such an implementation outcome, on an
+    async line of a type with containers, is that interaction and not a third behaviour (same convention as C12g and C19)."""
+    from . import genextra
+    return (str(case.get('mode', '')).startswith('async') and mk == 'err' and ik in ('crash', 'panic', 'hang')
+            and genextra.has_container(gb.schema, case['type']))
+
+
+def confirm_known(chk, gb, runner, failing, cases, outs, model_by_line):
+    """failing: [(case, why, cls, out)] -> the same list, with cls dropped (None) wherever the model of the known defect
+    does not predict the code's outcome on the case (or on one of its companion lines)"""
+    stats = chk.cov.setdefault('known_finding_attribution', dict(
+        rule='a failing case counts as a known finding of a modelled class only if the extracted model (which carries the defect) '
+             'predicts the code\'s outcome on that input exactly; otherwise it is reported as a violation with that case',
+        confirmed=0, refused=0, not_confirmable=0))
+    todo = [(c, cls) for c, _w, cls, _o in failing if cls in MODELLED_CLASSES]
+    if not todo:
+        return failing
+    if runner is None:
+        stats['not_confirmable'] += len(todo)
+        return failing
+    out_by_line = {c['line']: o for c, o in zip(cases, outs)}
+    group = lambda c: [c] + [x for x in c.get('companions', []) if x.get('line')]
+    need = []
+    for c, _cls in todo:
+        for cc in group(c):
+            if cc['line'] not in model_by_line and cc['line'] not in need and cc['line'].split(' ')[0] in ('dec', 'renc', 'mem', 'dflt'):
+                need.append(cc['line'])
+    if need:
+        extra = core.run_lines(runner, [_model_line(l) for l in need], args=[os.path.join(gb.out_dir, 'schema.txt')])
+        model_by_line = dict(model_by_line)
+        model_by_line.update(zip(need, extra))
+    res = []
+    for c, why, cls, o in failing:
+        if cls not in MODELLED_CLASSES:
+            res.append((c, why, cls, o))
+            continue
+        if cls == 'union-variant-retyped' and c.get('proto') == 'unchecked':
+            # the unchecked reader reads out of bounds there (undefined behaviour; the debug build's precondition checks abort):
+            # no model of that outcome exists, the class stays decided on the case (hits of the edit script)
+            stats['not_confirmable'] += 1
+            res.append((c, why, cls, o))
+            continue
+        diff = None
+        for cc in group(c):
+            if cc['line'] not in model_by_line:
+                continue
+            impl = out_by_line.get(cc['line'], o if cc is c else None)
+            if impl is None:
+                continue
+            d = _agrees(gb, cc, impl, model_by_line[cc['line']])
+            if d:
+                diff = (cc, d, impl, model_by_line[cc['line']])
+                break
+        if diff is None:
+            stats['confirmed'] += 1
+            res.append((c, why, cls, o))
+        else:
+            cc, d, impl, m = diff
+            stats['refused'] += 1
+            c2 = dict(c, not_the_known_finding=dict(cls=cls, finding=MODELLED_CLASSES[cls], line=cc['line'][:400], difference=d,
+                                                    impl_output=(impl or '')[:600], model_of_defect_output=(m or '')[:600]))
+            res.append((c2, '%s [on a type of the known-finding class %s (%s), but NOT that finding: the model of the known defect predicts `%s` '
+                            'for this input, the code gives `%s` (%s)]' % (why, cls, MODELLED_CLASSES[cls], (m or '')[:80], (impl or '')[:80], d), None, o))
+    return res
+
+
 def run_check(chk, replay, prop, gen_cases, evaluate, rule, model_ops=('dec', 'renc', 'dflt'), configs=None,
               model_norm=None, extra_dist=None, post=None):
     """gen_cases(gb, rng, tier) -> [case dict with 'line', ...]; evaluate(gb, case, out_line) -> [(reason, cls)]"""
@@ -161,6 +264,7 @@ def run_check(chk, replay, prop, gen_cases, evaluate, rule, model_ops=('dec', 'r
     # ---- correspondence with the extracted model
     mism = []
     n_model = 0
+    sel, mouts = [], []
     if runner is not None:
         sel = [(c, o) for c, o in zip(cases, outs) if c['line'].split(' ')[0] in model_ops and c.get('model', True)]
         mouts = core.run_lines(runner, [c['line'] for c, _ in sel], args=[os.path.join(gb.out_dir, 'schema.txt')])
@@ -175,6 +279,9 @@ def run_check(chk, replay, prop, gen_cases, evaluate, rule, model_ops=('dec', 'r
     # is a failing input, not a model disagreement without one
     flagged = set(id(c) for c, _, _, _ in failing)
     mism = [x for x in mism if id(x[0]) not in flagged]
+    # ---- attribution to a known finding: only where the model of the defect predicts exactly what the code did
+    if failing:
+        failing = confirm_known(chk, gb, runner, failing, cases, outs, {c['line']: m for (c, _), m in zip(sel, mouts)} if runner is not None else {})
     for c in cases:
         chk.count(c['line'], c.get('nontrivial', True))
     for i in (0, len(cases) // 2, len(cases) - 1):
